@@ -391,6 +391,8 @@ class Interner:
 
     def compile_defs(self, workdir, name="c09defs"):
         """compile the definitions once into <workdir>/<name>.vo; returns the header the case shards start with"""
+        workdir = os.path.join(workdir, name + "_lib")      # its own -Q root (workdir itself may hold other roots)
+        os.makedirs(workdir, exist_ok=True)
         path = os.path.join(workdir, name + ".v")
         with open(path, "w") as f:
             f.write(self.header())
